@@ -28,7 +28,12 @@ META = {
             "not modelled. File names restricted to valid UTF-8 (JSON replaces invalid bytes; probed and reported as a note only). "
             "The end-of-file position (offset = size) and the empty content do NOT follow the newline-counting rule in model and code "
             "(line table only holds offsets < size): the exact behaviour is proved (position_eof, eof_statement_false) and the deviation is a recorded finding. "
-            "Panic positions: compiler pipeline not modelled; explored through api.RunCode.",
+            "Panic positions: compiler pipeline not modelled; explored through api.RunCode (one and SEVERAL panic calls per source line; `assert` is not a "
+            "declared name in a plain program and the `unknown` target's runtime assert is empty, so only panic is observable). "
+            "Buffer aliasing (results of ToJson/ToJavaScript retained across later calls, returned slices overwritten, FromJson/Read input "
+            "reuse, Write-callback data mutated) has no counterpart in the model (values, not memory): it is explored by deterministic histories "
+            "inside the harness (op K). Known non-coverage: a Read decode callback that keeps the decoded structure and mutates it later shares "
+            "the Lines slices with the File by design (as in go/token).",
     "technique": "Lean 4 proof over hand-written model + differential correspondence (exhaustive offsets per file) + independent oracle; exploration for panic messages",
 }
 REQUIRED = ["lines_table", "searchInts_spec", "position_correct", "position_eof", "fileset_lookup_correct",
@@ -496,6 +501,92 @@ def gen_prog(rng, idx):
             "eol": "crlf" if eol == "\r\n" else "lf", "prefix": prefix}
 
 
+
+def gen_multi_progs(rng, idx):
+    """programs with SEVERAL panic calls on one source line; one program per call (run to the k-th panic).
+    Returns a list of program dicts like gen_prog's; the expected column is the byte column of the '(' of the
+    k-th `panic(` on that line, computed while the line is assembled."""
+    eol = rng.choice(["\n", "\n", "\n", "\r\n"])
+    ind = rng.choice(["\t", "\t\t", "  ", "\t \t"])
+    shape = ["ifelse", "switch", "semi", "for", "nested", "closure", "method", "ifelse"][idx % 8]
+    n = rng.choice([2, 2, 3, 4])
+    deco = lambda: rng.choice(["", "", "/* é */ ", "/* 你好 */ ", "_ = \"héllo\"; ", "/**/"])
+    line = ind + deco()
+    cols, msgs = [], []
+
+    def add_panic(arg=None):
+        nonlocal line
+        m = "m%d_%d" % (idx, len(cols))
+        line += deco() if rng.random() < 0.4 else ""
+        line += "panic"
+        cols.append(len(line.encode()) + 1)
+        line += "(" + (arg(m) if arg else '"%s"' % m) + ")"
+        msgs.append(m)
+    pre, post, call = [], [], "pick(%d)"
+    if shape in ("ifelse", "method"):
+        for j in range(n):
+            line += ("if k == %d { " % j) if j < n - 1 else "{ "
+            add_panic()
+            line += " }" + (" else " if j < n - 1 else "")
+        if shape == "method":
+            pre = ["type T :struct { a: int }", "", "func T.pick(k: int) {"]
+            call = "t := T{a: 1}; t.pick(%d)"
+        else:
+            pre = ["func pick(k: int) {"]
+        post = ["}"]
+    elif shape == "switch":
+        line += "switch k { "
+        for j in range(n):
+            line += ("case %d: " % j) if j < n - 1 else "default: "
+            add_panic()
+            line += "; " if j < n - 1 else " }"
+        pre, post = ["func pick(k: int) {"], ["}"]
+    elif shape == "semi":
+        for j in range(n):
+            line += "if k == %d { " % j
+            add_panic()
+            line += " }" + ("; " if j < n - 1 else "")
+        pre, post = ["func pick(k: int) {"], ["}"]
+    elif shape == "for":
+        line += "for i := 0; i < %d; i++ { " % n
+        for j in range(n):
+            line += "if i == %d && i == k { " % j
+            add_panic()
+            line += " }" + ("; " if j < n - 1 else "")
+        line += " }"
+        pre, post = ["func pick(k: int) {"], ["}"]
+    elif shape == "nested":
+        for j in range(n):
+            line += ("if k == %d { " % j) if j < n - 1 else "{ "
+            add_panic(lambda m: 'msg(msg("%s"))' % m if rng.random() < 0.5 else 'msg("%s")' % m)
+            line += " }" + (" else " if j < n - 1 else "")
+        pre = ["func msg(s: string) => string { return s }", "", "func pick(k: int) {"]
+        post = ["}"]
+    else:  # closures on one line (each closure is a function of its own) plus a direct panic after them
+        names = []
+        for j in range(n - 1):
+            line += "f%d := func() { " % j
+            add_panic()
+            line += " }; "
+            names.append("f%d" % j)
+        line += "if k == %d { " % (n - 1)
+        add_panic()
+        line += " }"
+        pre = ["func pick(k: int) {"]
+        post = [ind + "; ".join("if k == %d { %s() }" % (j, nm) for j, nm in enumerate(names)), "}"]
+    head = [rng.choice(["// several panics on one line", "// 注释", ""]) for _ in range(rng.randrange(0, 3))]
+    # a second function with its own multi-panic line, never executed: its columns must not leak into pick's
+    other = ["func other(k: int) {", "\tif k == 0 { panic(\"o0\") } else { panic(\"o1\") }", "}", ""] if rng.random() < 0.5 else []
+    progs = []
+    for t in range(len(cols)):
+        kval = t
+        L = head + other + pre + [line] + post + ["", "func main {", "\t" + (call % kval), "}"]
+        src = eol.join(L) + eol
+        progs.append({"name": "multi%d_%d.wa" % (idx, t), "src": src, "line": len(head) + len(other) + len(pre) + 1, "col": cols[t],
+                      "msg": msgs[t], "where": "multi-" + shape, "eol": "crlf" if eol == "\r\n" else "lf",
+                      "prefix": "k=%d of %d" % (t, len(cols))})
+    return progs
+
 PANIC_RE = re.compile(rb"panic: (.*) \(([^()\s]*):(\d+):(\d+)\)\n")
 
 
@@ -751,8 +842,17 @@ def run(ctx):
         wops.append("W " + hx(c)); wmeta.append((k, len(c)))
     nameops = [("N " + hx(nm.encode()), nm.encode()) for nm in ["a.wa", "目录/文件.wa", "a b<&>\".wa", "x\\y\t.wa"]] + [("N ff61", b"\xffa")]
     badjson = ["R %s 1 1" % hx(b'{"Base":1,"Files":[{"Name":"a","Base":1,"Size":'), "R %s 1 1" % hx(b'[]'), "R %s 1 1" % hx(b'{"Base":"x"}')]
-    _, wout, _ = ctx.run_bin(h, input_text="\n".join(wops + [n for n, _ in nameops] + badjson) + "\n")
+    kops = ["K all"] * 3
+    _, wout, _ = ctx.run_bin(h, input_text="\n".join(wops + [n for n, _ in nameops] + badjson + kops) + "\n")
     wl = wout.splitlines()
+    for r in (wl + ["<missing>"] * 3)[len(wops) + len(nameops) + len(badjson):][:3]:
+        mm = re.fullmatch(r"ok (\d+)", r)
+        if mm:
+            dist["aliasing_checks"] = dist.get("aliasing_checks", 0) + int(mm.group(1))
+            evaluations += int(mm.group(1))
+        else:
+            ctx.violation("serialize:aliasing:" + (r.split()[1].rstrip(":") if r.startswith("FAIL ") and len(r.split()) > 1 else r.split()[0][:20]),
+                          "aliasing history on ToJson/FromJson/Write/Read/ToJavaScript: %s" % r[:300], {"op": "K all", "impl": r[:500]})
     swept = 0
     for op, (k, n), r in zip(wops, wmeta, wl):
         if r != "ok %d" % n:
@@ -774,6 +874,10 @@ def run(ctx):
     # --- panic positions (explored)
     nprog = 32 if ctx.tier == "quick" else 400
     progs = [gen_prog(ctx.rng, i) for i in range(nprog)]
+    nmulti = 16 if ctx.tier == "quick" else 160
+    multi = [p_ for i in range(nmulti) for p_ in gen_multi_progs(ctx.rng, i)]
+    progs += multi
+    dist["panic_programs_several_calls_on_one_line"] = len(multi)
     pdir = os.path.join(cdir, "progs") if os.path.isdir(cdir) else None
     if pdir and os.path.isdir(pdir):
         for fn in sorted(os.listdir(pdir)):
